@@ -95,6 +95,12 @@ class TaintDomain(TagDomain):
   def unknown_call(self, node, st):
     return EMPTY
 
+  def hyperparam(self, cls, name, node):
+    return frozenset(['usercall']) if name == 'preprocessor' else EMPTY
+
+  def fitted_read(self, cls, name, node, st):
+    return frozenset(['usercall']) if name == 'preprocessor_' else EMPTY
+
   def value_call(self, callee, args, kwargs, node, st):
     # result of the user's preprocessor: formed, not yet validated, data
     return V(frozenset(['conv']))
@@ -150,7 +156,11 @@ class TaintDomain(TagDomain):
             len(args) >= 2:
       self.tuple_sizes.append((args[1].c, self.site(node)))
     if kind == 'unknown':
-      self.pre_calls.append((target, self.site(node), self.cur(), node))
+      # a call through the user's preprocessor: the callee value derives
+      # from the `preprocessor` hyper-parameter / `preprocessor_` attribute
+      # (an unresolved internal callable is not a user-supplied one)
+      if 'usercall' in (target.d or ()):
+        self.pre_calls.append((target, self.site(node), self.cur(), node))
       self._use('call through a user value', node, *args, *kwargs.values())
 
   def call_result(self, func, ret, node, st):
